@@ -24,6 +24,8 @@ var c19Extras = []struct{ name, text string }{
 	{"float-literals", "fn main() {\n    println(2.0, 0.5, 100000000000000000000.0, 0.0000001, 1f, 3.25 * 2.0);\n    println(1000000000000000.0, 1234567890123456.0, 9007199254740993.0, 4611686018427387904.0, 9223372036854775807.0, 9900000000000000000.0, 18446744073709551616.0, -9223372036854775808.0);\n}\n"},
 	{"nested-blocks-and-tail", "fn main() {\n    let v = { let a = 1; { let b = 2; a + b } };\n    println(v);\n    { println(\"inner\"); }\n}\n"},
 	{"object-keys-strings", "fn main() {\n    let o = new { \"key one\": 1, plain: 2 };\n    println(o.plain);\n}\n"},
+	{"object-keys-empty-and-odd", "type T = { \"\": int, \"a b\": int, \"1x\": int, \"é\": int, \"a-b\": int, \"_\": int };\nfn main() {\n    let o: T = new { \"\": 1, \"a b\": 2, \"1x\": 3, \"é\": 4, \"a-b\": 5, \"_\": 6 };\n    println(o);\n}\n"},
+	{"object-keys-keywords", "fn main() {\n    let o = new { \"fn\": 1, \"let\": 2, \"if\": 3, \"type\": 4, \"true\": 5, \"null\": 6, \"none\": 7, \"new\": 8, \"in\": 9, \"as\": 10 };\n    println(o);\n}\n"},
 	{"types-complex", "type A = { l: [int], o: ?str, n: { x: float } };\nfn mk() -> A { new { l: [1], o: ?\"s\", n: new { x: 1.5 } } }\nfn main() { let a = mk(); println(a.l, a.o, a.n.x); }\n"},
 	{"negative-and-grouping", "fn main() {\n    println(-(1 + 2) * 3, (1 + 2) * 3, 1 + 2 * 3, -2 ** 2, (-2) ** 2, 2 ** 3 ** 2, 10 - 3 - 2, 10 - (3 - 2), !(true && false) || false);\n}\n"},
 	{"casts-and-ranges", "fn main() {\n    println(3 as float, 2.7 as int, true as int);\n    for i in 0..3 { print(i); }\n    println(\"\");\n    let r = 1..4;\n    println(r.start, r.end);\n}\n"},
